@@ -5,7 +5,7 @@ import petl as etl
 from hypothesis import strategies as st
 
 from pv import gen, codec
-from pv.core import Sub, Fail, exc_fail
+from pv.core import Sub, Fail, exc_fail, two_iterators
 from pv.ref import base as R, setops as RS
 
 ID = "C08"
@@ -51,11 +51,27 @@ def case(draw, tier):
         c["b"] = [["x", "y", "z", "u", "w"][:nf]] + [list(r) for r in b[1:]]
     # inputs that are themselves whole-row sort views, ascending or descending
     c["upstream"] = [draw(st.sampled_from(["none", "none", "none", "asc", "desc"])) for _ in range(2)]
+    # read the result through two interleaved iterators over the one view (None: a single pass)
+    c["lag"] = draw(st.sampled_from([None, None, 0, 1, 2]))
     return c
 
 
+class _Diverged(Exception):
+    pass
+
+
+_MODE = {"lag": None}
+
+
 def _run(f, *args, **kw):
-    return [tuple(r) for r in f(*args, **kw)]
+    view = f(*args, **kw)
+    if _MODE["lag"] is None:
+        return [tuple(r) for r in view]
+    # two live iterators over the one view (the second `lag` rows behind): both must deliver the whole result
+    ra, rb = two_iterators(view, lag=_MODE["lag"])
+    if ra != rb:
+        raise _Diverged("two interleaved iterators over one %s view gave %r and %r" % (f.__name__, ra, rb))
+    return ra
 
 
 def check(case, ctx):
@@ -83,6 +99,9 @@ def check(case, ctx):
         if seq and got[1:] != rows:
             return Fail(name + "/order", "%s(%r, %r, strict=%r) gave %r, reference order %r" % (name, a, b, strict, got[1:], rows))
         return None
+    _MODE["lag"] = case.get("lag")
+    if _MODE["lag"] is not None:
+        ctx.label("two-iterators")
     try:
         if op == "complement":
             return cmp(op, _run(etl.complement, A, B, strict=strict), RS.ref_complement(a, b, strict), seq=False)
@@ -110,8 +129,12 @@ def check(case, ctx):
             if RS.multiset(c[1:]) + RS.multiset(i[1:]) != ca:
                 return Fail("law/%s+%s" % (cf.__name__, inf.__name__), "complement %r + intersection %r != a %r" % (c[1:], i[1:], a[1:]))
         return None
+    except _Diverged as ex:
+        return Fail(op + "/iterators-diverge", str(ex))
     except Exception as ex:
         return exc_fail(op, ex)
+    finally:
+        _MODE["lag"] = None
 
 
 SUBS = [Sub("setops", check, strategy=case, quick=12000, thorough=200000)]
